@@ -298,6 +298,11 @@ func (ot *objectTree) AddContentWithValidator(ctx context.Context, content Signa
 	added := []StorageChange{storageChange}
 	err = ot.storage.AddAll(ctx, added, ot.Heads(), ot.tree.root.Id)
 	if err != nil {
+		// the new head is attached in memory but was not stored: go back to what the storage
+		// holds, otherwise the next change would be built on a parent that was never persisted
+		if _, rebuildErr := ot.rebuildFromStorage(nil, nil, nil); rebuildErr != nil {
+			log.Error("failed to rebuild after failed add content", zap.Strings("heads", ot.Heads()), zap.Error(rebuildErr))
+		}
 		return
 	}
 
